@@ -292,7 +292,32 @@ func C05(e *Env) {
 	run.Obs("shared_tree_objects_snapshotted", len(sharedBefore))
 	run.Obs("targets", len(targets))
 	c05Library(e)
+	c05EmptyRoot(e)
 	for _, t := range targets {
 		CrashCheck(e, t.p, "c05 "+t.name, nil)
+	}
+}
+
+// c05EmptyRoot: with writing enabled and nothing under the root, every spelling of the root itself is
+// given to delete and rmdir (an empty directory is the one that rmdir can remove): the served root
+// must survive, and the requests are judged by the model (failure code expected).
+func c05EmptyRoot(e *Env) {
+	run := e.Run
+	for k, spell := range []string{"/", "", "/.", "//", "/x/..", ".", "/./"} {
+		root := e.Dir(fmt.Sprintf("W/emptyroot%d", k))
+		p := e.Worker(worker.Config{Root: root, AllowWrite: true, BufSize: 65536}, fmt.Sprintf("c05-empty%d", k), false, 0)
+		addr := p.HostPort()
+		w := &model.World{Root: root, AllowWrite: true, Views: model.PlainViews, Probe: func() error { return host.Probe(addr) }}
+		reqs := []wire.Req{wire.P(wire.OpDelete, spell), wire.P(wire.OpRmdir, spell), wire.P(wire.OpStat, "/"), wire.P(wire.OpMkdir, "/d"), wire.P(wire.OpRmdir, "/d"), wire.P(wire.OpRmdir, spell)}
+		res := RunLockstep(addr, w, reqs, e.Watchdog, 0, false)
+		run.Eval(len(reqs))
+		run.Sig("empty-root spelling %q", spell)
+		if res.Fail != nil {
+			judgeModelFail(e, res.Fail, reqs, res.FailAt, "", res.Fail.Feature, fmt.Sprintf("[empty root, allow_write=true, spelling %q] %s", spell, res.Fail.Detail), map[string]any{"root_spelling": spell, "requests": trimReqs(reqs), "transcript": tailStr(res.Log, 8)})
+		}
+		if _, err := os.Stat(root); err != nil {
+			run.Violate("remove-root", "empty-root", fmt.Sprintf("after DELETE/RMDIR %q on an empty root the served root directory is gone: %v", spell, err), map[string]any{"root_spelling": spell})
+		}
+		p.Stop()
 	}
 }
